@@ -3,7 +3,8 @@
 Spec: spec/Temperature.tla (+ MC_C08, Trace_C08).
   1. TLC enumerates the bounded single-step instance MC_C08 (conversions, the
      binary pair table in four call forms, diff/ediff1d/ptp/gradient, the
-     multiplicative/power family), computes for every case the
+     multiplicative/power family, chains of 2-3 conversion routes / point +
+     difference arithmetic applied to the SAME source object), computes for every case the
      implementation-shaped outcome, the property verdict on that outcome
      (model-level counterexamples) and the candidate values, and exports them.
   2. every case is replayed on the real library (harness/impl_c08.py).
@@ -39,15 +40,17 @@ def _key(r):
         k.update(left_kelvin_sized=bool(r["left_kelvin_sized"]))
     if r["fam"] == "ref":
         k.update(partner=r["part"])
+    if r["fam"] == "chain":
+        k.update(op=r["route"], step=r["step"], routes=">".join(r["routes"][: r["step"]]), dtype=r["dt"], shape=r["shape"])
     return k
 
 
 def _strip(c):
-    return {k: c[k] for k in ("fam", "op", "form", "u0", "u1", "rs", "shape", "part", "x0", "x1", "t", "cands")}
+    return {k: c[k] for k in ("fam", "op", "form", "u0", "u1", "rs", "shape", "part", "chain", "dt", "x0", "x1", "t", "cands")}
 
 
 def _validate(ck, cases, obs, label):
-    recs = [{"c": {k: c[k] for k in ("fam", "op", "form", "u0", "u1", "rs", "shape", "part")}, "obs": o} for c, o in zip(cases, obs)]
+    recs = [{"c": {k: c[k] for k in ("fam", "op", "form", "u0", "u1", "rs", "shape", "part", "chain", "dt")}, "obs": o} for c, o in zip(cases, obs)]
     npf = 0
     for off in range(0, len(recs), CHUNK):
         part = recs[off : off + CHUNK]
@@ -57,7 +60,7 @@ def _validate(ck, cases, obs, label):
             raise MachineryFailure(f"trace validation consumed {res.distinct} states, expected {len(part) + 1}")
         ck.validated(len(part))
         for r in res.by_tag("T-FAIL"):
-            ck.drift_step(f"{r['fam']}:{r['op']}", {"form": r["form"], "left": r["left"], "right": r["right"], "part": r["part"], "model": r["model"], "observed": r["observed"]})
+            ck.drift_step(f"{r['fam']}:{r['op']}", {"routes": r["routes"], "form": r["form"], "left": r["left"], "right": r["right"], "part": r["part"], "model": r["model"], "observed": r["observed"]})
         for r in res.by_tag("UNDECIDED"):
             ck.drift_step(f"{r['fam']}:{r['op']}:label-outside-alphabet", {"form": r["form"], "left": r["left"], "right": r["right"], "observed": r["observed"]})
         for r in res.by_tag("P-FAIL"):
@@ -87,16 +90,21 @@ def run(ck):
         return
 
     cfg = ck.q("MC_C08_quick", "MC_C08_thorough")
-    res = ck.tlc("MC_C08", cfg, workers=1, label=f"case table {cfg}", required_actions=["Next"], timeout=3000)
+    # no -coverage here: TLC's coverage bookkeeping makes the recursive operators of the chain family ~12x slower;
+    # vacuity is excluded below by requiring cases of every family instead
+    res = ck.tlc("MC_C08", cfg, workers=1, coverage=False, label=f"case table {cfg}", timeout=3000)
     cases = [r["c"] for r in res.by_tag("CASE")]
     if len(cases) != res.distinct - 1 or len(cases) < 1000:
         raise MachineryFailure(f"exported {len(cases)} cases for {res.distinct} states")
-    cases.sort(key=lambda c: json.dumps({k: c[k] for k in ("fam", "op", "form", "u0", "u1", "rs", "shape", "part")}, sort_keys=True))
+    cases.sort(key=lambda c: json.dumps({k: c[k] for k in ("fam", "op", "form", "u0", "u1", "rs", "shape", "part", "chain", "dt")}, sort_keys=True))
     ck.cov["exhaustive"] = True
     fams = {}
     for c in cases:
         fams[c["fam"]] = fams.get(c["fam"], 0) + 1
     ck.cov["cases_by_family"] = fams
+    for fam in ("bin", "conv", "red", "ref", "chain"):
+        if not fams.get(fam):
+            raise MachineryFailure(f"no case of family {fam} generated (vacuous instance)")
     model_cex = {}
     for c in cases:
         if c["mp"]:
@@ -105,11 +113,11 @@ def run(ck):
     ck.cov["model_level_counterexamples"] = model_cex
     units = sorted({_uname(c["u0"]) for c in cases} | {_uname(c["u1"]) for c in cases})
     ck.cov["units"] = units
-    for fam in ("bin", "conv", "red", "ref"):
+    for fam in ("bin", "conv", "red", "ref", "chain"):
         ex = [c for c in cases if c["fam"] == fam]
         if ex:
             c = ex[len(ex) // 2]
-            ck.sample({"fam": fam, "op": c["op"], "form": c["form"], "u0": _uname(c["u0"]), "u1": _uname(c["u1"]), "shape": c["shape"], "model": c["t"]})
+            ck.sample({"fam": fam, "chain": [x["r"] + (":" + _uname(x["v"]) if x["v"]["base"] else "") for x in c["chain"]], "dtype": c["dt"], "op": c["op"], "form": c["form"], "u0": _uname(c["u0"]), "u1": _uname(c["u1"]), "shape": c["shape"], "model": c["t"]})
 
     obs = ck.pmap("impl_c08", "observe", cases)
     bad = [o for o in obs if "_error" in o]
@@ -124,7 +132,7 @@ def run(ck):
     for c, o in zip(cases, obs):
         p0 = c["u0"]["base"] in ("degC", "degF")
         p1 = c["u1"]["base"] in ("degC", "degF")
-        if c["fam"] in ("conv", "red"):
+        if c["fam"] in ("conv", "red", "chain"):
             nontrivial += 1
         elif c["fam"] == "ref":
             nontrivial += p0
